@@ -753,6 +753,31 @@ def _scen(args):
     return scenario(*args)
 
 
+def from_suite(ctx):
+    """Suite stream (thorough tier): the repository's own tests are the drivers.  harness/suite_c14.py records every
+    call of a finder returned by Mesh.element_finder() and every CellBasis.probes / interpolator / point_source
+    call on small meshes; the recorded events are judged by the witness-based Suite clauses of spec/Locate.tla."""
+    from .. import suite
+    evs = suite.record(ctx, files=['tests/test_basis.py', 'tests/test_mesh.py', 'tests/test_assembly.py'],
+                       plugins=['harness.suite_c14'])
+    events = evs.get('c14', [])
+    skipped = {}
+    for d in evs.get('c14_skipped', []):
+        for k, v in d.items():
+            skipped[k] = skipped.get(k, 0) + int(v)
+    scs = []
+    for k, e in enumerate(events):
+        tags = {'family': 'suite', 'kind': e.get('kind', ''), 'driver': 'suite', 'elem': e.get('elem', ''),
+                'components': e.pop('components', 'one')}
+        scs.append({'id': f'C14-suite-{k}', 'recipe': {'driver': 'suite', 'test': e.pop('test', '')}, 'tags': tags,
+                    'events': [e]})
+    ctx.validate('TraceC14', scs, jvms=8)
+    ctx.notes['scenarios_from_repository_tests'] = len(scs)
+    ctx.notes['suite_events_by_kind'] = {k: sum(1 for s in scs if s['events'][0]['a'] == k) for k in ('SuiteFind', 'SuiteProbe')}
+    ctx.notes['suite_skipped_not_representable'] = skipped
+    return scs
+
+
 def run(ctx):
     th = ctx.tier == 'thorough'
     procs = Pool()                                                # forked before any thread exists
@@ -791,6 +816,8 @@ def run(ctx):
             recs.append(probe_recipe(k, p, t, p1[k], prng, fam, ctx.tier))
         scs = procs.map(_scen, [(f'C14-{k}', r) for k, r in enumerate(recs)])
         ctx.validate('TraceC14', scs, jvms=8)
+        if th:
+            from_suite(ctx)
         out_file = fut.result()
         rrecs = replay_recipes(out_file, ctx.tier, np.random.default_rng(ctx.seed + 2014))
         rscs = procs.map(_scen, [(f'C14-R{k}', r) for k, r in enumerate(rrecs)])
@@ -810,12 +837,20 @@ def run(ctx):
         'ties between equidistant centroids are broken by the lower index in the transcription only (drift is '
         'evidence, not a verdict)',
         'interpolator with trailing axes is driven for scalar elements only; point_source for scalar elements only',
+        'suite stream (thorough): float coordinates of the repository tests are not representable exactly; the '
+        'projection supplies barycentric coordinates computed in exact rational arithmetic from the float data '
+        '(rounded to 2^-56) as witnesses and the pairing probes(x) @ y; TLC decides containment within 2^-36, the '
+        'matrix structure and the entrywise local expansion; what is not representable is skipped and counted',
         'TLC 1.8.0 and the CommunityModules Json module are trusted'],
         exhaustive=False)
 
 
 def replay(ctx, doc):
     sc = doc['scenario']
+    if sc.get('recipe', {}).get('driver') == 'suite':
+        # recorded from a repository test (named in the recipe): the recorded event itself is re-validated
+        ctx.validate('TraceC14', [sc], jvms=8)
+        return ctx.finish(rule=RULE)
     if sc.get('recipe', {}).get('driver') == 'model':
         ctx.model_must_hold('MC_C14', sc['recipe']['cfg'], env={'OUT_FILE': ''}, timeout=3000)
         return ctx.finish(rule=RULE)
